@@ -1,9 +1,9 @@
 # Registry: which jobs decide which property, plus the per-property texts that go into the evidence.
 import importlib
 
-MODULES = ["jobs_coeffs", "jobs_vec", "jobs_rot", "jobs_conv"]
+MODULES = ["jobs_coeffs", "jobs_vec", "jobs_rot", "jobs_conv", "jobs_q120", "jobs_reim4"]
 
-CLAIMED = ["C05", "C07", "C08", "C09", "C13", "C14", "C11", "C18"]
+CLAIMED = ["C05", "C07", "C08", "C09", "C10", "C13", "C14", "C17", "C11", "C18"]
 LEVEL = {"C12": "other", "C15": "other"}
 EXPLAIN = {}
 
